@@ -59,6 +59,10 @@ package hash
 //@   loop 1 iteration-ensures [keeps-the-visited] ret(repr) != nodeRepr ==> newNodes[at_head(len(newNodes))] == at_head(nodes[rangeindex + 1]) && arg(repr, 0) == at_head(nodes[rangeindex + 1])
 //@   loop 1 invariant 0 <= rangeindex + 1 && rangeindex < len(nodes) && len(newNodes) <= rangeindex + 1 && newNodes.arr == nodes.arr && newNodes.off == nodes.off && newNodes.cap == nodes.cap
 //@   ensures [absent-untouched] !old(has(h.ring, hash)) ==> !has(h.ring, hash)
+// a slot left without nodes is removed from the ring (never kept as an empty list: Get tells an empty ring by
+// len(ring) == 0 and would otherwise divide by the zero positions)
+//@   ensures [no-empty-slot-left] has(h.ring, hash) ==> len(h.ring[hash]) >= 1
+//@   ensures [other-slots-untouched] forallk(k, int, k != hash ==> has(h.ring, k) == old(has(h.ring, k)))
 
 // AddWithReplicas: the node's previous virtual nodes are removed first; at most h.replicas (and never a
 // negative number of) positions are added; weight/replicas 0 adds none.
